@@ -114,6 +114,8 @@ pub struct Case {
     pub env: Env,
     pub code: [u8; 6],
     pub code_len: usize,
+    /// a data byte placed explicitly (operand-relation layer): (address, value)
+    pub data_preset: Option<(u16, u8)>,
     /// positions of operand atoms in `code`
     pub op1_at: usize,
     pub op2_at: usize,
@@ -163,6 +165,9 @@ impl Case {
         let pc = self.st.pc;
         let code = self.code;
         self.env.set_code(pc, &code[..self.code_len]);
+        if let Some((a, v)) = self.data_preset {
+            self.env.preset_byte(a, v);
+        }
     }
 }
 
@@ -265,6 +270,7 @@ pub fn base_case(kind: u8, op: u8, which: u8, pc: u16) -> Option<Case> {
         env: Env::new(if which == 0 { 0x13 } else { 0xC8 }),
         code,
         code_len: len,
+        data_preset: None,
         op1_at: o1,
         op2_at: o2,
     };
@@ -476,7 +482,8 @@ pub fn case_json(kind: u8, op: u8, c: &Case) -> serde_json::Value {
     json!({"kind":"single","enc_kind":kind,"op":op,"code":crate::vcore::hex(&c.code[..c.code_len]),
         "regs":[s.a,s.f,s.b,s.c,s.d,s.e,s.h,s.l,s.a_alt,s.f_alt,s.b_alt,s.c_alt,s.d_alt,s.e_alt,s.h_alt,s.l_alt,s.i,s.r,s.im,s.q],
         "regs16":[s.ix,s.iy,s.sp,s.pc,s.memptr],"iff":[s.iff1,s.iff2],"halted":s.halted,"inhibit":s.int_inhibit,
-        "mem_key":c.env.mem_key,"io_key":c.env.io_key,"bg":c.env.bg,"int":c.env.int_line,"nmi":c.env.nmi_line,"ack":c.env.ack_byte})
+        "mem_key":c.env.mem_key,"io_key":c.env.io_key,"bg":c.env.bg,"int":c.env.int_line,"nmi":c.env.nmi_line,"ack":c.env.ack_byte,
+        "data_preset": c.data_preset.map(|(a, v)| json!([a, v]))})
 }
 
 pub fn case_from_json(v: &serde_json::Value) -> Option<(u8, u8, Case)> {
@@ -525,6 +532,9 @@ pub fn case_from_json(v: &serde_json::Value) -> Option<(u8, u8, Case)> {
     c.env.int_line = v["int"].as_bool().unwrap_or(false);
     c.env.nmi_line = v["nmi"].as_bool().unwrap_or(false);
     c.env.ack_byte = v["ack"].as_u64().unwrap_or(255) as u8;
+    if let Some(p) = v["data_preset"].as_array() {
+        c.data_preset = Some((p[0].as_u64().unwrap_or(0) as u16, p[1].as_u64().unwrap_or(0) as u8));
+    }
     c.finalize();
     Some((kind, op, c))
 }
@@ -647,6 +657,47 @@ pub fn enumerate_encoding(ctx: &Ctx, mode: Mode, kind: u8, op: u8, pcs: &[u16], 
         if *pc == pcs[0] && kind <= 2 && op % 64 == 9 {
             ctx.sample(json!({"encoding": format!("{} {:02x}", kind_name(kind), op), "read_set": format!("{:?}", rel),
                 "domain_sizes": doms.iter().map(|(a, d)| format!("{:?}:{}", a, d.len())).collect::<Vec<_>>(), "tuples_per_background": n}));
+        }
+    }
+    // operand-relation layer: the tuples above give memory a keyed hash, so a relation between A and
+    // the byte an instruction reads (equal, off by one, half-borrow neighbours, ...) occurs only by
+    // chance. For every encoding whose reference run reads a data byte: all 256 values of A x the
+    // byte at that address = A - d for d in a relation alphabet x F in {00, FF} x both backgrounds.
+    {
+        let pc = pcs[0];
+        for which in 0..2u8 {
+            let base = match base_case(kind, op, which, pc) {
+                Some(b) => b,
+                None => break,
+            };
+            let mut probe = base.clone();
+            probe.finalize();
+            let r = run_ref(&probe);
+            let code_range = pc..pc.wrapping_add(base.code_len as u16);
+            let data_addr = r.log.slice().iter().find_map(|e| match e {
+                Ev::Rd(a, _) if !code_range.contains(a) => Some(*a),
+                _ => None,
+            });
+            let addr = match data_addr {
+                Some(a) => a,
+                None => break,
+            };
+            for f in [0x00u8, 0xFF] {
+                for a in 0..=255u8 {
+                    for d in [0x00u8, 0x01, 0xFF, 0x10, 0xF0, 0x0F, 0xF1, 0x80] {
+                        let mut c = base.clone();
+                        c.set(Atom::A, a);
+                        c.set(Atom::F, f);
+                        c.data_preset = Some((addr, a.wrapping_sub(d)));
+                        c.finalize();
+                        let h = compare_case(ctx, mode, kind, op, &c, false);
+                        if local.len() < 4096 {
+                            local.insert(h);
+                        }
+                        total += 1;
+                    }
+                }
+            }
         }
     }
     let mut g = outcomes.lock().unwrap();
